@@ -45,6 +45,33 @@ def _setattr(name, value):
     return build
 
 
+def _aug_attr(name, value):
+    def build(V, o):
+        import ast as _ast
+        v = value(V, o) if callable(value) else value
+
+        def run(itp, obj):
+            cur = itp.get_attr(obj, name)
+            itp.lib.inplace(cur, None, _ast.Mult, v)
+            itp.set_attr(obj, name, cur)
+            return None
+        return run, []
+    return build
+
+
+def _edit_and_reassign(name, value):
+    def build(V, o):
+        v = value(V, o) if callable(value) else value
+
+        def run(itp, obj):
+            cur = itp.get_attr(obj, name)
+            itp.lib.setitem(cur, 0, v)
+            itp.set_attr(obj, name, cur)
+            return None
+        return run, []
+    return build
+
+
 def _read(name):
     def build(V, o):
         def run(itp, obj):
@@ -157,6 +184,9 @@ COMMON_OPS = {
 
 ACC_OPS = {
     'response_times=': _setattr('response_times', arr('new_rt', lo=2, positive_first=True)),
+    # the SAME array object edited in place and assigned again (python's `s.response_times *= c` is get, in-place multiply, set)
+    'response_times*=c': _aug_attr('response_times', real('rt_factor', positive=True)),
+    'response_times[0]=c;response_times=same-array': _edit_and_reassign('response_times', real('rt_first', positive=True)),
     'gen_response_spectrum(response_times=)': _method('gen_response_spectrum', response_times=arr('new_rt', lo=2, positive_first=True)),
     'generate_response_spectrum(response_times=)': _method('generate_response_spectrum', response_times=arr('new_rt', lo=2, positive_first=True)),
     'response_series(response_times=)': _method('response_series', response_times=arr('new_rt', lo=2, positive_first=True)),
